@@ -55,6 +55,7 @@ fn main() {
             with_world!(world, W => runner::miri_batch::<W>(prop, seed, from, to, sweep, 1, 0))
         }
         Some("noop") => 0,
+        Some("minimise-inproc") => runner::cmd_minimise_inproc(args.get(2).expect("usage: ksim minimise-inproc <job.json>")),
         Some("miri-multi") => {
             // miri-multi <prop> <seed> <world:from:to[:sweep]>...
             let prop = args[2].as_str();
